@@ -606,3 +606,44 @@ def c08_family(tier):
                     out.append(s)
 
     return out
+
+
+# ---- C18 family: lineage history of one filter run ------------------------------------------------------------------------
+
+def c18_family(tier):
+    out  = []
+    full = tier == 'thorough'
+    runs = {'short': 400, 'one': 1000, 'long': 2500}     # run length relative to the 1 s heartbeat interval
+
+    def one(name, fpatch, extras, kind, length):
+        f = {**src(2000, 'flt', period=100), 'outputs': 0}
+
+        for k, v in fpatch.items():
+            if k == 'config':
+                f.setdefault('config', {}).update(v)
+            else:
+                f[k] = v
+
+        s = scn(f'{name}/{length}', [f], profile='TIMELY', timely_ms=20, quiet_ms=10**9, horizon_ms=runs[length] + 1500,
+                preempt_poll0=True, lineage={'interval': 1})
+        s['c18'] = {'ending': name, 'kind': kind, 'length': length}
+        s.update(extras)
+        out.append(s)
+
+    for length, ms in runs.items():
+        k = ms // 100      # the source sleeps 100 ms per process() call
+
+        one('exit-process', {'faults': [{'at': 'process', 'k': k, 'what': 'exit'}]}, {}, 'clean', length)
+        one('raise-process', {'faults': [{'at': 'process', 'k': k, 'what': 'raise'}]}, {}, 'error', length)
+        one('stop-evt', {}, {'stop_at': [{'f': 'flt', 'at_ms': ms}]}, 'clean', length)
+        one('exit-after', {'config': {'exit_after': ms / 1000}}, {}, 'clean', length)
+
+        if length == 'short' or full:
+            one('exit-shutdown', {'faults': [{'at': 'process', 'k': k, 'what': 'exit'}, {'at': 'shutdown', 'what': 'exit'}]}, {}, 'clean', length)
+            one('raise-shutdown', {'faults': [{'at': 'process', 'k': k, 'what': 'exit'}, {'at': 'shutdown', 'what': 'raise'}]}, {}, 'error', length)
+
+    one('exit-setup', {'faults': [{'at': 'setup', 'what': 'exit'}]}, {}, 'clean', 'short')
+    one('raise-setup', {'faults': [{'at': 'setup', 'what': 'raise'}]}, {}, 'error', 'short')
+    one('init-bad-output', {'config': {'outputs': ['file:///nowhere']}}, {}, 'error', 'short')
+
+    return out
